@@ -260,17 +260,6 @@ Section Core.
   Qed.
   Hint Resolve run_factory_framed default_value_framed lookup_default_value_framed : fr.
 
-  Lemma delattr_framed l a force skip : b <= l -> framed b (delattr_ ct rec l a force skip) (fun _ => True).
-  Proof.
-    intro Hl. unfold delattr_. fstep. fstep.
-    fbindT; [fgo|]. intros _ _.
-    destruct (if force then None else lookup_attr a1 a) as [sp|].
-    - fstep. fstep.
-      + fbindT; [fprim|]. intros _ _. fbindT; [fgo; fprim|]. intros; fstep.
-      + apply mutate_attr_framed; auto.
-    - fbindT; [fprim|]. intros _ _. fbindT; [fgo; fprim|]. intros; fstep.
-  Qed.
-
   Lemma instantiate_ty_framed t : framed b (instantiate_ty rec t) (freshv b).
   Proof.
     unfold instantiate_ty. destruct t; try (fstep; simpl; auto; fail); try (fstep; fstep; fail).
@@ -536,6 +525,17 @@ Section Core.
     destruct value; try exact H. now fret.
   Qed.
   Hint Resolve prepare_attr_value_framed : fr.
+
+  Lemma delattr_framed l a force skip : b <= l -> framed b (delattr_ ct rec l a force skip) (fun _ => True).
+  Proof.
+    intro Hl. unfold delattr_. fstep. fstep.
+    fbindT; [fgo|]. intros _ _.
+    destruct (if force then None else lookup_attr a1 a) as [sp|].
+    - fstep. fstep.
+      + fbindT; [fprim|]. intros _ _. fbindT; [fgo; fprim|]. intros; fstep.
+      + fbindT; [apply prepare_attr_value_framed|]. intros v _. apply mutate_attr_framed; auto.
+    - fbindT; [fprim|]. intros _ _. fbindT; [fgo; fprim|]. intros; fstep.
+  Qed.
 
   Lemma setattr_framed l a v force skip :
     b <= l -> framed b (setattr_ ct rec l a v force skip) (fun _ => True).
